@@ -65,7 +65,28 @@ void bus_connection_request_headers (DBusConnection *c, BusExtraHeaders h) { }
 #ifndef OP
 #define OP 0
 #endif
-#if OP == 1
+#if OP == 2
+/* C10: per-request argument checking in the driver's table walks — for every interface the driver exports and every property / method name a client can
+ * put into Properties.Get / Set / GetAll or a method call, the table lookups terminate on their sentinels without dereferencing anything else
+ * (CBMC pointer checks on): interfaces without properties have a NULL property table. */
+void harness (void)
+{
+  static char nm[4]; DBusError err; int k, n_if = 0;
+  nm[0] = (char) vf_u8 (); nm[1] = (char) vf_u8 (); nm[2] = (char) vf_u8 (); nm[3] = 0;
+  for (k = 0; k < 12; k++)
+    if (k < (int) _DBUS_N_ELEMENTS (interface_handlers) && interface_handlers[k].name != NULL)
+      {
+        const PropertyHandler *ph; const MessageHandler *mh;
+        err.name = 0; err.message = 0; n_if++;
+        ph = interface_handler_find_property (&interface_handlers[k], nm, &err);
+        VF_ASSERT ((ph != NULL) != (err.name != NULL), "a property lookup either finds the property or sets UnknownProperty");
+        if (ph != NULL) VF_ASSERT (strcmp (ph->name, nm) == 0, "the property found is the one asked for");
+        for (mh = interface_handlers[k].message_handlers; mh != NULL && mh->name != NULL; mh++) VF_ASSERT (mh->handler != NULL, "every listed method has a handler");
+      }
+  VF_ASSERT (n_if >= 5, "the driver's interface table was walked");
+  VF_WITNESS ("end of harness reached");
+}
+#elif OP == 1
 /* C14 (RemoveMatch): the only effect that a cancelled transaction cannot undo — removing the rule — happens
  * after everything that can fail for lack of memory; so a RemoveMatch that reports an error has removed nothing. */
 void harness (void)
